@@ -1,1 +1,3 @@
 pub mod nonblank;
+pub mod refscan;
+pub mod toggle;
